@@ -96,6 +96,14 @@ CLAIMED = {
         'and a thinned trace are shown to be rejected on every run.',
         'Handlers are invoked directly (no transport). Schedules are sampled (seeded), not exhaustive.',
         '5/C15'),
+    'C20': (
+        'TLA+ specs Registry.tla (clock read and table write as separate steps) and Ownership.tla (every unlocked read and critical section an action) model-checked by TLC; edge covers of both state graphs replayed on the real WorkerRegistry / CourierServer._heartbeat (virtual clock) and Worker / WorkerPool under the deterministic scheduler with state comparison; random-schedule exploration; raising pool operations over the in-process transport',
+        'TLC checks heartbeat monotonicity, no revival by late completions, lock/owner consistency, release-only-own (action property), released-at-end and '
+        'termination for all interleavings of 3 heartbeat handlers + 2 client refreshes and of 2 pools x 2 workers x acquire/release programs; the pinned '
+        'register() and release_all() designs are shown to be rejected. Every edge of the ownership graphs and a budgeted cover of the registry graph are '
+        'executed on the real objects with the recorded heartbeat / (lock, owner) compared after each step.',
+        'Virtual clock substituted for `time`; in-process transport; Worker objects shared between pools.',
+        '5/C20'),
 }
 
 PENDING = {}
